@@ -526,12 +526,23 @@ func hunt(o Opts) {
 		Tried   int    `json:"tried"`
 	}
 	var r res
-	report := func(c Case) {
-		c = shrink(c)
+	// a failing input must REPLAY: the shrunk history is re-judged; if it no longer fails the
+	// unshrunk one is; if that does not fail either the observation was not reproducible (it is
+	// not reported and the search goes on)
+	report := func(c0 Case) bool {
+		c0.Outs = nil
+		c := shrink(c0)
 		f, at := propCheck(c)
+		if f == "" {
+			c = c0
+			if f, at = propCheck(c); f == "" {
+				return false
+			}
+		}
 		r.Found, r.Failure, r.At = true, f, at
 		c.Outs = nil
 		r.Case = c
+		return true
 	}
 	done := false
 	if o.Replay != "" {
@@ -543,9 +554,9 @@ func hunt(o Opts) {
 			for _, c := range rp.Cases {
 				r.Tried++
 				if f, _ := propCheck(c); f != "" {
-					report(c)
-					done = true
-					break
+					if done = report(c); done {
+						break
+					}
 				}
 			}
 		}
@@ -559,8 +570,7 @@ func hunt(o Opts) {
 			smallMode = false
 			r.Tried++
 			if f, _ := propCheck(c); f != "" {
-				report(c)
-				done = true
+				done = report(c)
 			}
 		}
 	}
